@@ -134,21 +134,21 @@ theorem C06_after_capture_only_pass_withheld (s : GameState) (pp : PlayPhase)
 /-! ## Non-vacuity -/
 
 /-- Gold elephant alone on e4. -/
-private def exB : Board := Board.new (sqBit 36) (sqBit 36) 0 0 0 0 0
+private def exB_C06 : Board := Board.new (sqBit 36) (sqBit 36) 0 0 0 0 0
 /-- One step made; the turn-start hash is chosen so that a pass would restore the turn-start
 position: the pass is in the rule-only list and is withheld. -/
-private def ex1 : GameState :=
+private def ex1_C06 : GameState :=
   { p1Turn := true, moveNo := 2
-    phase := .play { prev := [exB], pps := .none, initHash := zExcludeStep 5 1, hist := [],
+    phase := .play { prev := [exB_C06], pps := .none, initHash := zExcludeStep 5 1, hist := [],
                      trapped := false }
-    board := exB, hash := 5 }
+    board := exB_C06, hash := 5 }
 
-example : ex1.validActionsNoRep =
+example : ex1_C06.validActionsNoRep =
     [.move 36 .up, .move 36 .right, .move 36 .down, .move 36 .left, .pass] ∧
-    ex1.validActions = [.move 36 .up, .move 36 .right, .move 36 .down, .move 36 .left] := by
+    ex1_C06.validActions = [.move 36 .up, .move 36 .right, .move 36 .down, .move 36 .left] := by
   decide +kernel
 
-example : Action.pass ∈ ex1.validActionsNoRep ∧ Action.pass ∉ ex1.validActions := by
+example : Action.pass ∈ ex1_C06.validActionsNoRep ∧ Action.pass ∉ ex1_C06.validActions := by
   decide +kernel
 
 end Arimaa
